@@ -15,7 +15,8 @@ def prefixPath (pre : Path) (fp : Path × List Nat) : Path × List Nat := (pre +
 /-- `to_remove` at `End(node)`, from the parent's top frame and the popped tracker. -/
 def dedupToRemove (top : List (Nat × Nat)) (tracker : Tracker) (decls : List (Nat × Nat)) : List Nat :=
   decls.filterMap (fun kv =>
-    if FStack.isNamespaceKnown [top] kv.2 && trackerIsSafeToRemove kv.2 tracker then some kv.2 else none)
+    if kv.2 != Env.noNamespace && FStack.isNamespaceKnown [top] kv.2 &&
+      trackerIsSafeToRemove kv.2 tracker then some kv.2 else none)
 
 /-- First loop of `deduplicate_namespaces` on a subtree: resulting tracker and the fix-ups
     (paths relative to the subtree). -/
